@@ -448,6 +448,10 @@ class CompMixin(Interp):
             if isinstance(h, HBag):
                 return VInt(self.bigsum(st, h.binders, h.guard, z3.IntVal(1)))
             if isinstance(h, HListC):
+                # a list length is never negative (the symbolic length of an abstract list carries no such fact by itself)
+                fact = h.length >= 0
+                if not z3.is_true(z3.simplify(fact)) and not any(fact.eq(a) for a in st.pc):
+                    st.pc.append(fact)
                 return VInt(h.length)
             if isinstance(h, HDict):
                 c = self.bigsum(st, [h.binder], h.dom, z3.IntVal(1))
